@@ -11,6 +11,7 @@ import traceback
 import numpy as np
 
 HERE = os.path.dirname(os.path.dirname(os.path.abspath(__file__)))
+THOROUGH_FACTOR = 0.5   # the per-sub-check thorough budgets were calibrated to ~2x what fits in 10 min on 16 idle cores
 
 
 def die(msg):
@@ -134,7 +135,7 @@ def main(argv):
             for i, ch in enumerate(sc.chunks(tier)):
                 tasks.append(dict(pid=pid, sub=sc.name, tier=tier, seed=seed, shard=i, n=0, chunk=ch))
             continue
-        total = sc.quick if tier == "quick" else sc.thorough
+        total = sc.quick if tier == "quick" else int(sc.thorough * THOROUGH_FACTOR)
         total = max(1, int(total * scale))
         if total <= 0:
             continue
